@@ -17,7 +17,8 @@ Names == {<<"H1">>, <<"H1", "NUL">>, <<"H1", "NUL", "NUL">>, <<"H1", "NUL", "H1"
           <<"H1", "0">>, <<"1", "H1">>, <<"H6">>, <<"[", "H6", "]">>, <<"HL">>, <<"H127", "7">>, <<"H127", "8">>,
           <<"H127", "PH">>, <<"SUR">>, <<>>}
 Ports == {"PA", "PB", "PE"}
-Users == {<<>>, <<"7">>, <<"8">>}
+\* ("*": a user whose name is a pattern character - a name is a name, never a pattern)
+Users == {<<>>, <<"7">>, <<"8">>, <<"*">>}
 Sels  == {"any", "signed", "roundrobin", "unsigned"}
 A(ip, text) == [ip |-> ip, text |-> text]
 Addrs == {A("a", "a"), A("b", "b"), A("c", "c"), A("c", "c2")}
